@@ -36,6 +36,78 @@ func FactsAt(b *ssa.BasicBlock) []Fact {
 	for d := b.Idom(); d != nil; d = d.Idom() {
 		out = append(out, factsFrom(d, b)...)
 	}
+	return expandPhiFacts(out, 0)
+}
+
+// expandPhiFacts: a fact about a boolean φ (the shape go/ssa gives a materialised `a || b`, `a && b`, or a flag
+// local) implies facts about its operands: when all but one incoming edge carry a constant that contradicts the
+// outcome, control came through the remaining edge, so that edge's value has the outcome and everything known on
+// that edge holds too.  (`t := x || !y; if !t` establishes !x and y.)
+func expandPhiFacts(facts []Fact, depth int) []Fact {
+	if depth > 3 {
+		return facts
+	}
+	out := facts
+	for _, f := range facts {
+		phi, ok := f.Cond.(*ssa.Phi)
+		if !ok {
+			continue
+		}
+		if bt, isB := phi.Type().Underlying().(*types.Basic); !isB || bt.Info()&types.IsBoolean == 0 {
+			continue
+		}
+		cand := -1
+		n := 0
+		for i, e := range phi.Edges {
+			if k, isK := e.(*ssa.Const); isK && k.Value != nil {
+				if (k.Value.ExactString() == "true") != f.Pol {
+					continue // this edge would have produced the other outcome
+				}
+			}
+			cand = i
+			n++
+		}
+		if n != 1 {
+			continue
+		}
+		var more []Fact
+		if _, isK := phi.Edges[cand].(*ssa.Const); !isK {
+			more = append(more, norm(phi.Edges[cand], f.Pol, phi.Block()))
+		}
+		pred := phi.Block().Preds[cand]
+		if ef, ok := EdgeFact(pred, phi.Block()); ok {
+			more = append(more, ef)
+		}
+		// facts of the predecessor block that are not already known (its dominators are ours, so only its own chain adds)
+		for d := pred.Idom(); d != nil; d = d.Idom() {
+			more = append(more, factsFrom(d, pred)...)
+		}
+		more = dedupFacts(more, out)
+		out = append(out, expandPhiFacts(more, depth+1)...)
+	}
+	return out
+}
+
+func dedupFacts(add, have []Fact) []Fact {
+	var out []Fact
+	for _, a := range add {
+		dup := false
+		for _, h := range have {
+			if h.Cond == a.Cond && h.Pol == a.Pol {
+				dup = true
+				break
+			}
+		}
+		for _, h := range out {
+			if h.Cond == a.Cond && h.Pol == a.Pol {
+				dup = true
+				break
+			}
+		}
+		if !dup {
+			out = append(out, a)
+		}
+	}
 	return out
 }
 
